@@ -24,12 +24,12 @@ def T(name: str, k: str = "ok", n: int = 0, target: str = "", out: dict | None =
 
 
 def S(ref: str, req=(), tasks=None, join="AND", thr=0, cof=False, failp=True, mutex="", choice="",
-      parent="", owner="", enabled=None, ctx=None, region="", split=None, lazy=False) -> dict:
+      parent="", owner="", enabled=None, ctx=None, region="", split=None, lazy=False, milestone=None) -> dict:
     if tasks is None:
         tasks = [T(f"{ref}.1")]
     return {"ref": ref, "req": sorted(req), "tasks": tasks, "join": join, "thr": thr, "cof": cof,
             "failp": failp, "mutex": mutex, "choice": choice, "parent": parent, "owner": owner,
-            "enabled": enabled, "ctx": ctx or {}, "region": region, "split": dict(split or {}), "lazy": lazy}
+            "enabled": enabled, "ctx": ctx or {}, "region": region, "split": dict(split or {}), "lazy": lazy, "milestone": list(milestone or [])}
 
 
 def P(name: str, stages: list[dict], max_jumps: int = -1, **kw) -> dict:
@@ -139,6 +139,16 @@ def split_family() -> list[dict]:
     return fam
 
 
+def milestone_family() -> list[dict]:
+    """WCP-18: a stage enabled only while its milestone stage is RUNNING (whether it runs or is skipped depends on the schedule)"""
+    fam = []
+    fam.append(P("milestone", [S("a"), S("m", ["a"], tasks=[T("m.1", "poll", 2)]), S("x", ["a"], milestone=["m", "RUNNING"]),
+                               S("y", ["x"])]))
+    fam.append(P("milestonelate", [S("a"), S("m", ["a"]), S("b", ["a"], tasks=[T("b.1", "poll", 1)]),
+                                   S("x", ["b"], milestone=["m", "RUNNING"]), S("y", ["x", "m"])]))
+    return fam
+
+
 def region_family() -> list[dict]:
     """programs with a cancel region (WCP-25): CancelRegion is injected by the drivers"""
     fam = []
@@ -181,7 +191,7 @@ def control_family() -> list[dict]:
 
 def all_programs() -> list[dict]:
     return [with_outputs(p) for p in core_family() + extra_family() + control_family() + synthetic_family()
-            + operator_family() + region_family() + split_family() + lazy_family() + halt_family()]
+            + operator_family() + region_family() + split_family() + lazy_family() + halt_family() + milestone_family()]
 
 
 # ----------------------------------------------------------------------------------------------
@@ -230,6 +240,8 @@ def build_workflow(prog: dict):
             kw["deferred_choice_group"] = sd["choice"]
         if sd.get("region"):
             kw["cancel_region"] = sd["region"]
+        if sd.get("milestone"):      # WCP-18: [milestone stage ref, required status]
+            kw["milestone_ref_id"], kw["milestone_status"] = sd["milestone"]
         if sd.get("split"):     # OR-split (WCP-6): constant conditions, their values are the program's data
             from stabilize.models.stage import SplitType
 
@@ -415,6 +427,8 @@ def tla_program(prog: dict) -> dict:
         "mutex": {s["ref"]: s["mutex"] for s in st},
         "region": {s["ref"]: s.get("region", "") for s in st},
         "split": {s["ref"]: dict(s.get("split") or {}) for s in st},
+        "msref": {s["ref"]: (s.get("milestone") or ["", ""])[0] for s in st},
+        "msstatus": {s["ref"]: (s.get("milestone") or ["", ""])[1] for s in st},
         "choice": {s["ref"]: s["choice"] for s in st},
         "parent": {s["ref"]: s["parent"] for s in st},
         "owner": {s["ref"]: s["owner"] for s in st},
